@@ -136,6 +136,9 @@ func handler(w http.ResponseWriter, r *http.Request) {
 			sum += int(c)
 		}
 	}
+	if ms, _ := strconv.Atoi(r.URL.Query().Get("slow")); ms > 0 {
+		time.Sleep(time.Duration(ms) * time.Millisecond) // the client may be gone when the answer is written
+	}
 	w.Header().Set("X-Tag", tag)
 	w.Header().Set("X-Sum", strconv.Itoa(sum))
 	if size < len(tag)+2 {
@@ -209,6 +212,36 @@ func runScen(s scen) int {
 		addr = e.Addrs[0]
 	}
 	var wg sync.WaitGroup
+	// clients that send a request to a slow handler and reset the connection before the answer: the flush of those
+	// responses fails while the other connections go on (what is released on that path must not be released twice)
+	stopAbort := make(chan struct{})
+	var abortWg sync.WaitGroup
+	if !s.TLS {
+		for a := 0; a < 3; a++ {
+			abortWg.Add(1)
+			go func() {
+				defer abortWg.Done()
+				for k := 0; ; k++ {
+					select {
+					case <-stopAbort:
+						return
+					default:
+					}
+					c, err := net.Dial("tcp", addr)
+					if err != nil {
+						return
+					}
+					fmt.Fprintf(c, "GET /?id=abort&size=100&slow=10 HTTP/1.1\r\nHost: x\r\n\r\n")
+					time.Sleep(2 * time.Millisecond)
+					if tc, ok := c.(*net.TCPConn); ok {
+						tc.SetLinger(0)
+					}
+					c.Close()
+					time.Sleep(3 * time.Millisecond)
+				}
+			}()
+		}
+	}
 	for ci, h := range s.Histories {
 		ci, h := ci, h
 		wg.Add(1)
@@ -218,6 +251,8 @@ func runScen(s scen) int {
 		}()
 	}
 	wg.Wait()
+	close(stopAbort)
+	abortWg.Wait()
 	done := make(chan struct{})
 	go func() { e.Stop(); close(done) }()
 	select {
